@@ -164,10 +164,23 @@ pub fn c06_tables() {
         );
         k += 1;
     }
+    // degree→radian factor on concrete points, bit-equal in both crates
+    let pts = [180.0f64, 90.0, 1.0, -93.0, 57.29577951308232, 1e-300];
+    let mut t = 0;
+    while t < 6 {
+        let a = a5::core::coordinate_transforms::deg_to_rad(a5::Degrees::new_unchecked(pts[t]));
+        let b = a5_ref::core::coordinate_transforms::deg_to_rad(a5_ref::Degrees::new_unchecked(pts[t]));
+        assert!(a.get().to_bits() == b.get().to_bits());
+        t += 1;
+    }
     kani::cover!(r == 30);
 }
 
 /// ∀ finite lon: the longitude leg of from_lon_lat is bit-equal to the reference's.
+pub fn deg_identity_ref_stub(d: a5_ref::Degrees) -> a5_ref::Radians {
+    a5_ref::Radians::new_unchecked(d.get())
+}
+
 pub fn authalic_ref_stub(_p: &a5_ref::projections::authalic::AuthalicProjection, _phi: a5_ref::Radians) -> a5_ref::Radians {
     let v: f64 = kani::any();
     a5_ref::Radians::new_unchecked(v)
@@ -177,6 +190,8 @@ pub fn authalic_ref_stub(_p: &a5_ref::projections::authalic::AuthalicProjection,
 #[kani::unwind(14)]
 #[kani::stub(a5::projections::authalic::AuthalicProjection::forward, crate::c18::authalic_stub)]
 #[kani::stub(a5_ref::projections::authalic::AuthalicProjection::forward, authalic_ref_stub)]
+#[kani::stub(a5::core::coordinate_transforms::deg_to_rad, crate::c18::deg_identity_stub)]
+#[kani::stub(a5_ref::core::coordinate_transforms::deg_to_rad, deg_identity_ref_stub)]
 pub fn c06_lon_offset() {
     let lon: f64 = kani::any();
     kani::assume(lon.is_finite());
